@@ -14,7 +14,7 @@ from . import REPO, VERIF
 def _jobs_for(prop, reg, lemmas):
     jobs = []
     for t, c in reg.items():
-        if prop in c.prop.split(","):
+        if prop in c.prop.split(",") and not c.assumed:
             for case in c.cases:
                 jobs.append(("fn", t, case))
     for n, l in lemmas.items():
